@@ -483,8 +483,12 @@ def drive(modname: str, tier: str, base_seed: int, jobs: int, runs_override: int
         "wall_s": round(wall_s, 2),
         "violations": len(new_viol),
     }
-    os.makedirs(os.path.join(VERIF, "evidence"), exist_ok=True)
-    with open(os.path.join(VERIF, "evidence", f"{prop}.json"), "w") as f:
+    # the committed evidence file is only rewritten by a run of the registered command (no --runs / --wall override, not a
+    # sensitivity run on a deliberately broken tree); everything else goes to a git-ignored scratch directory
+    official = runs_override is None and wall_override is None and not os.environ.get("VERIF_SCRATCH_EVIDENCE")
+    edir = os.path.join(VERIF, "evidence" if official else "evidence_scratch")
+    os.makedirs(edir, exist_ok=True)
+    with open(os.path.join(edir, f"{prop}.json"), "w") as f:
         json.dump(ev, f, indent=1, sort_keys=True, default=str)
     print(
         f"{prop} {tier}: runs={evals} units={agg['units']} nontrivial_distinct={len(agg['nontrivial'])} "
@@ -558,6 +562,8 @@ def main(argv: list[str], registry: dict[str, str]) -> int:
     if a.tier not in ("quick", "thorough"):
         a.tier = "quick"
     base_seed = a.seed if a.seed is not None else int(os.environ.get("VERIF_SEED", "1") or 1)
+    if a.seed is not None and not os.environ.get("VERIF_OFFICIAL_EVIDENCE"):
+        os.environ["VERIF_SCRATCH_EVIDENCE"] = "1"  # an explicit --seed is an exploration run, not the registered command
     try:
         import aiohomekit
 
